@@ -24,7 +24,7 @@ RULE = ("search: for every problem of each plug-in's family (all clue layouts on
         "program (z3, capped) is checked against rules_<p>, and grids constructed by the generator (checked against "
         "rules_<p>) must be admitted.  "
         "Tier 1 tie (P), for every plug-in with a TIER1 attribute (sudoku, norinori, putteria, star_battle, aquarium, creek, akari, "
-        "building, doppelblock, nurimisaki, heyawake): the program captured from the real solve_<p> (declarations, answer keys, constraints as a "
+        "building, doppelblock, nurimisaki, heyawake, gokigen, slitherlink, view, nurikabe): the program captured from the real solve_<p> (declarations, answer keys, constraints as a "
         "multiset) = the program of the Coq model solve_<p>_model, on every problem of tier1_problems (all tiny boards, "
         "random larger and non-square ones, malformed inputs that raise).")
 TRUSTED = [
@@ -34,8 +34,8 @@ TRUSTED = [
     "Core/Expr.v eval as the meaning of posted constraints",
 ]
 ASSUMPTIONS = [
-    "Tier 2 and search are bounded by the instance families listed in evidence (tiny boards); unbounded statements exist only for the Tier-1 modules (sudoku, norinori, putteria, star_battle, aquarium, creek, akari, building, doppelblock, nurimisaki, heyawake)",
-    "aquarium Tier 1: every tank (region) is orthogonally connected; creek / nurimisaki / heyawake Tier 1 compose with property C04 (Graph/Avc.v::post_avc is the model of graph.active_vertices_connected, tied to the Python by C04's own check)",
+    "Tier 2 and search are bounded by the instance families listed in evidence (tiny boards); unbounded statements exist only for the Tier-1 modules (sudoku, norinori, putteria, star_battle, aquarium, creek, akari, building, doppelblock, nurimisaki, heyawake, gokigen, slitherlink, view, nurikabe)",
+    "aquarium Tier 1: every tank (region) is orthogonally connected; creek / nurimisaki / heyawake / view Tier 1 compose with property C04 (Graph/Avc.v::post_avc is the model of graph.active_vertices_connected, tied to the Python by C04's own check), gokigen with C09 (Graph/Acyclic.v::post_acyclic), slitherlink with C06 (Graph/Cycle*.v::active_edges_single_cycle on a frame), nurikabe with C05 (Graph/Division.v::division_connected)",
     "Solver.solve derives (is_sat, decided cells) from the posted program as property C02 states; backends decide programs correctly (C01)",
     "well-formed problems: regions partition the board into orthogonally connected sets, clue values within the module's documented alphabet",
 ]
